@@ -30,7 +30,10 @@ CLAIM = dict(
          "total_grid_symmetric_not_enough) the symmetry reduction needs NKdiv (and NKFFT) symmetric on their own - a symmetric "
          "total grid is not enough - so the rule the check enforces is determineNK's: every specified grid symmetric "
          "(compared with the real accept/refuse decision), and every factorisation of small grids of C4/C6/cubic models is "
-         "either refused or reproduces the full-grid result with use_irred_kpt on and off.",
+         "either refused or reproduces the full-grid result with use_irred_kpt on and off; (star_images_same_with_inversion, "
+         "dropping_TR_sign_merges_valleys) the image rule k -> iTR iInv (k M): with inversion in the group the TR sign does "
+         "not change the set of images, for C3z + C2y*TR on a 3x3 K-grid dropping it merges the inequivalent K and K' "
+         "(tied to the code through the C06 star correspondence and the magnetic-group oracle).",
     note="Assumed, not proved: every grid calculator is of the form 'mean over the k-points of Data_K of a function of k' "
          "(holds by construction of the calculators; checked by running every constructible calculator), exp is "
          "multiplicative/periodic and the FFT libraries compute the DFT (trusted kernels, checked numerically). "
